@@ -272,8 +272,9 @@ def c15(ck):
         e["parsed"]["n"] = e["parsed"]["n"] + [45]
     def bad_text(e):
         e["text"] = e["text"][:-1]
+    extra = vlib.run_harness_min(ck.scratch / "c15_min.ndjson")
     events = stateless_check(
-        ck, binary, "c15", "Trace_C15", ["--namelen", 3 if thorough else 2, "--random", 1000000 if thorough else 20000],
+        ck, binary, "c15", "Trace_C15", ["--namelen", 3 if thorough else 2, "--random", 1000000 if thorough else 20000, "--extra", extra],
         [("NevraRT", bad_parse), ("EvrRT", bad_text)],
         lambda e, r: (f"{e['event']}:{s_(e.get('text', e.get('op','')))}") if e else "?",
         sample_kinds=("NevraRT", "EvrRT", "CtRT"))
@@ -282,7 +283,7 @@ def c15(ck):
     ck.nontrivial = len({tuple(e["text"]) for e in rt if 45 in e["x"].get("n", []) or e["x"]["e"]})
     ck.rule = ("all NEVRA tuples with name <= 2 (3 thorough) over {a,1,-,.}, epoch in {'',0,7,12}, version <= 2 over "
                "{1,.,a,~,^}, release <= 2 over {1,.,a}, arch in {x,x86_64,noarch}; the asset NEVRAs; all five "
-               "compression types; seeded arbitrary strings for the no-panic part; non-trivial = distinct texts "
+               "compression types, in the harness's build (all compressors) and in a build without any optional feature; seeded arbitrary strings for the no-panic part; non-trivial = distinct texts "
                "whose name contains '-' or which carry an epoch")
     ck.finish()
 
